@@ -246,9 +246,9 @@ let lane_paged args =
            let total = List.fold_left (fun a p -> a + List.length p.p_items + 1) 2 pgs in
            (* behind EntriesOnly: the composed loop (Paged.eo_drain) hands on the entries and collects the reference tokens *)
            let (items, s', eo_refs) = (match stop, chained with
-             | None, true -> let ((es, rs), s1) = eo_drain true (nat_of_int total) s0 [] in (List.map (fun k -> Entry k) es, s1, Some rs)
-             | None, false -> let (l, s1) = drain1 true (nat_of_int total) s0 in (l, s1, None)
-             | Some k, _ -> let (l, s1) = take_items true (nat_of_int k) s0 in (l, s1, None)) in
+             | None, true -> let ((es, rs), s1) = eo_drain prepaired (nat_of_int total) s0 [] in (List.map (fun k -> Entry k) es, s1, Some rs)
+             | None, false -> let (l, s1) = drain1 prepaired (nat_of_int total) s0 in (l, s1, None)
+             | Some k, _ -> let (l, s1) = take_items prepaired (nat_of_int k) s0 in (l, s1, None)) in
            (* finish(): the result, and the id it scrubs; an id is still reserved afterwards only if the page in flight has not been
               answered in full (withheld) and is not the one scrubbed *)
            let withheld_pages = List.mapi (fun i p -> (i + 1, List.mem "w" (String.split_on_char ',' p))) (String.split_on_char ';' pages) in
@@ -329,7 +329,7 @@ let dispatch lane args =
   | "stream" -> lane_stream args
   | "setup" -> lane_setup args
   | "setupx" -> "oracle-only"
-  | "mt" | "stall" -> "oracle-only"     (* multi-thread stress: the harness's oracles decide, there is no model outcome to compare *)
+  | "mt" | "stall" | "pagedlost" -> "oracle-only"     (* multi-thread stress: the harness's oracles decide, there is no model outcome to compare *)
   | "sync" -> "equal"     (* c14_sequences: for a diagonal table the facade IS the async API; the lane compares the two real APIs *)
   | "tls" -> lane_tls args
   | "paged" -> lane_paged args
